@@ -370,8 +370,12 @@ def run_impl(binary, lines, timeout=1800, env=None, extra_args=()):
     of = os.path.join(td, "out.txt")
     with open(cf, "w") as f:
         f.write("\n".join(lines) + "\n")
-    p = subprocess.run([binary] + list(extra_args) + [cf, of], stdout=subprocess.PIPE, stderr=subprocess.STDOUT, text=True,
-                       timeout=timeout, env=env)
+    try:
+        p = subprocess.run([binary] + list(extra_args) + [cf, of], stdout=subprocess.PIPE, stderr=subprocess.STDOUT, text=True,
+                           timeout=timeout, env=env)
+    except subprocess.TimeoutExpired:
+        shutil.rmtree(td, ignore_errors=True)
+        raise ImplCrash("implementation harness did not finish %d case(s) within %d s (first: %s)" % (len(lines), timeout, lines[0][:300]))
     if p.returncode != 0:
         raise ImplCrash(p.stdout[-3000:])
     out = open(of).read().split("\n")
@@ -385,6 +389,20 @@ def run_impl(binary, lines, timeout=1800, env=None, extra_args=()):
 
 class ImplCrash(Exception):
     pass
+
+
+def run_impl_robust(binary, lines, timeout=300, single_timeout=30, env=None, marker="NOLOG"):
+    """run_impl, but a crash or a hang of the harness process is narrowed down by bisection to the case(s) that
+    cause it; those get '<marker> <reason>' as their output (a replayable failing case), the others their results."""
+    try:
+        return run_impl(binary, lines, timeout=timeout, env=env)
+    except ImplCrash as e:
+        if len(lines) == 1:
+            return ["%s %s" % (marker, " ".join(str(e)[-400:].split()))]
+        mid = len(lines) // 2
+        t = max(single_timeout, timeout // 2)
+        return (run_impl_robust(binary, lines[:mid], t, single_timeout, env, marker) +
+                run_impl_robust(binary, lines[mid:], t, single_timeout, env, marker))
 
 
 def run_coq_eval(body, timeout=900):
